@@ -56,6 +56,7 @@ def spec1d_case(draw, layouts=LAYOUTS, min_nf=2, max_nf=40, kinds=VALUE_KINDS,
     if n * nf <= 24 and draw(st.booleans()):
         pal = st.one_of(fl(0.0, 1.0), st.sampled_from([0.0, 0.5, 1.0]))
         e = np.array(draw(st.lists(pal, min_size=n * nf, max_size=n * nf))).reshape(n, nf) * mag
+        e = np.where(e < 1e-150, 0.0, e)        # no subnormal-range densities (m0 and its square root lose all precision)
         kind = "direct"
     else:
         e = expand_values(seed, kind, n, nf, None, f, mag)
